@@ -189,4 +189,85 @@ def specCells (ctx : Ctx) : List Item → Nat → List (Nat × Nat × Val)
     | none => specCells ctx rest row
   | .raw _ _ :: rest, row => specCells ctx rest row
 
+/-! ### well-formedness conditions and sheet layout used by the round-trip theorems -/
+
+/-- size constraints of the fields of a cell record -/
+def Content.WF : Content → Prop
+  | .blank => True
+  | .rk w => w < 4294967296
+  | .err c => c < 256
+  | .bool b => b < 256
+  | .real bits => bits < 18446744073709551616
+  | .str us => us.length < 4294967296 ∧ ∀ u ∈ us, u < 65536
+  | .isst i => i < 4294967296
+
+def CellRec.WF (c : CellRec) : Prop := c.col < 4294967296 ∧ c.content.WF
+
+def CellRec.tail (c : CellRec) : Bytes :=
+  match c.fmla with
+  | some f => if c.content.hasFmla then f else []
+  | none => []
+
+/-- what the round-trip theorems require of an item of the sheet data -/
+def Item.OK (ctx : Ctx) : Item → Prop
+  | .row r tail => r ≤ 0x100000 ∧ 4 + tail.length < 268435456
+  | .cell c => c.WF ∧ c.payload.length < 268435456 ∧ (c.content = .blank ∨ (valueOf ctx c.style c.content).isSome)
+  | .raw id p => id < 16384 ∧ interpretedId id = false ∧ p.length < 268435456
+
+/-- the buffer after `fill_buffer` read the payload `p` into `buf` -/
+def fillBuf (buf p : Bytes) : Bytes := if buf.length < p.length then p else p ++ buf.drop p.length
+
+def Framed.id (f : Framed) : Nat := f.item.recId
+def Framed.pay (f : Framed) : Bytes := f.item.payload
+
+/-- framing limits: 14-bit id, 28-bit length -/
+def Framed.Fits (f : Framed) : Prop := f.id < 16384 ∧ f.pay.length < 268435456
+
+/-- the buffers `fill_buffer` produces while skipping a list of records -/
+def bufAfter (buf : Bytes) (l : List Framed) : Bytes := l.foldl (fun b x => fillBuf b x.pay) buf
+
+/-- a piece of the sheet prologue: one record, or a block `start … stop` whose content the reader skips -/
+inductive Seg where
+  | one (r : Framed)
+  | block (start : Framed) (inner : List Framed) (stop : Framed)
+
+def Seg.bytes : Seg → Bytes
+  | .one r => r.bytes
+  | .block s inner e => s.bytes ++ (encodeItems inner ++ e.bytes)
+
+def encodeSegs : List Seg → Bytes
+  | [] => []
+  | s :: rest => s.bytes ++ encodeSegs rest
+
+/-- number of records of a segment -/
+def Seg.size : Seg → Nat
+  | .one _ => 1
+  | .block _ inner _ => inner.length + 2
+
+def segsSize : List Seg → Nat
+  | [] => 0
+  | s :: rest => s.size + segsSize rest
+
+/-- a segment the skipping loop passes over when looking for `target` under `bounds` -/
+def Seg.OK (target : Nat) (bounds : List (Nat × Option Nat)) : Seg → Prop
+  | .one r => r.Fits ∧ r.id ≠ target ∧ blockEnd bounds r.id = none
+  | .block s inner e => s.Fits ∧ s.id ≠ target ∧ blockEnd bounds s.id = some e.id ∧ e.Fits ∧
+      ∀ x ∈ inner, x.Fits ∧ x.id ≠ e.id
+
+/-- the `bounds` of the two `next_skip_blocks` calls of `XlsbCellsReader::new` -/
+def bounds1 : List (Nat × Option Nat) := [(0x0081, none), (0x0093, none)]
+def bounds2 : List (Nat × Option Nat) := [(0x0085, some 0x0086), (0x0025, some 0x0026), (0x01E5, none), (0x0186, some 0x0187)]
+
+/-- the bytes of a worksheet part: prologue up to BrtWsDim, BrtWsDim, prologue up to BrtBeginSheetData,
+    BrtBeginSheetData, the sheet data, BrtEndSheetData, anything -/
+def sheetBytes (pre1 : List Seg) (dims : Bytes) (dw : Bool) (dl : Nat) (pre2 : List Seg) (bp : Bytes) (bw : Bool)
+    (bl : Nat) (data : List Framed) (ew : Bool) (el : Nat) (post : Bytes) : Bytes :=
+  encodeSegs pre1 ++ (frame 0x0094 dims dw dl ++ (encodeSegs pre2 ++ (frame 0x0091 bp bw bl ++
+    (encodeItems data ++ (frame 0x0092 [] ew el ++ post)))))
+
+/-- cells sorted by row (what `Range::from_sparse` documents as its precondition; the encoder's sheets, whose
+    row headers increase, meet it) with rows and columns inside the sheet grid -/
+def GridSorted (S : List (Nat × Nat × Val)) : Prop :=
+  S.Pairwise (fun a b => a.1 ≤ b.1) ∧ ∀ c ∈ S, c.1 < 1048576 ∧ c.2.1 < 16384
+
 end Xlsb
